@@ -76,9 +76,33 @@ Definition group_for (names : list string) : option group :=
 (* component j of vertex i of the located attribute, as float64 bits *)
 Definition lookup (r : mesh) (d : nat) (a : string) (i j : nat) : option N :=
   do rows <- get_attr d a (m_attrs r); do row <- nth_error rows i; nth_error row j.
-Definition read_component (o : wopts) (m : wmesh) (r : mesh) (x : wattr) (i j : nat) : option N * sty :=
+(* Where the reader puts a vertex property, judged from the header of the file itself ([ps]: the vertex properties the
+   implementation declared): a property that is a member of a recognised group lands in that group's attribute, at its
+   position, only when the group is complete and uniformly typed in the file (PlyRead.accepted: all members present with
+   one type; colour groups also without their alpha); every other property is a scalar attribute under its own name. *)
+Fixpoint name_index (n : string) (l : list string) (k : nat) : option nat :=
+  match l with [] => None | x :: r => if seqb n x then Some k else name_index n r (S k) end.
+Fixpoint locate_in (gs : list group) (ps : list (sty * string)) (n : string) : option (nat * string * nat) :=
+  match gs with
+  | [] => None
+  | g :: rest =>
+      match accepted g ps with
+      | Some (names, _, _) =>
+          match name_index n names 0 with
+          | Some k => Some (List.length names, g_attr g, k)
+          | None => locate_in rest ps n
+          end
+      | None => locate_in rest ps n
+      end
+  end.
+Definition lookup_prop (ps : list (sty * string)) (r : mesh) (n : string) (i : nat) : option N :=
+  match locate_in default_groups ps n with
+  | Some (d, a, k) => lookup r d a i k
+  | None => lookup r 1 n i 0
+  end.
+Definition read_component (ps : list (sty * string)) (o : wopts) (m : wmesh) (r : mesh) (x : wattr) (i j : nat) : option N * sty :=
   (* texture coordinates no writer names come back as the TexCoord attribute (face element of a triangle mesh;
-     a repaired writer may also emit them per vertex as s/t) *)
+     per vertex as s/t otherwise) *)
   if is_attr 2 "TexCoord" x
      && (negb (claimed (o_writers o) 2 "TexCoord")
          (* a triangle mesh with at least one face: whatever a writer stored per vertex, the reader takes the
@@ -86,12 +110,8 @@ Definition read_component (o : wopts) (m : wmesh) (r : mesh) (x : wattr) (i j : 
          || (match w_topo m with TTriangle => negb (Nat.eqb (nprims m) 0) | TPoint => false end))
   then (lookup r 2 "TexCoord" i j, Float) else
   match first_writer o x with
-  | Some w =>
-      (match group_for (pw_names w) with
-       | Some g => lookup r (List.length (pw_names w)) (g_attr g) i j
-       | None => lookup r 1 (nth j (pw_names w) EmptyString) i 0
-       end, pw_ty w)
-  | None => (lookup r 1 (nth j (unspec_names (wa_dim x) (wa_name x)) EmptyString) i 0, Float)
+  | Some w => (lookup_prop ps r (nth j (pw_names w) EmptyString) i, pw_ty w)
+  | None => (lookup_prop ps r (nth j (unspec_names (wa_dim x) (wa_name x)) EmptyString) i, Float)
   end.
 (* a read-back value against the original float32 word at the precision of the stored type *)
 Fixpoint index_of (v : N) (l : list N) (k : N) : option N :=
@@ -119,20 +139,34 @@ Definition value_ok (t : sty) (w : N) (v : option N) : bool :=
               | _ => match as_f64 w with Some e => f =? e | None => false end     (* the value itself, as a float64 *)
               end
   end.
-Definition corner_ok (o : wopts) (m : wmesh) (r : mesh) (i : nat) (i' : Z) : bool :=
+Definition corner_ok (ps : list (sty * string)) (o : wopts) (m : wmesh) (r : mesh) (i : nat) (i' : Z) : bool :=
   (0 <=? i')%Z &&
   forallb (fun x => negb (carried o m x) ||
              match nth_error (wa_rows x) i with
              | None => false
-             | Some row => forallb (fun j => let '(v, t) := read_component o m r x (Z.to_nat i') j in value_ok t (nth j row 0) v)
+             | Some row => forallb (fun j => let '(v, t) := read_component ps o m r x (Z.to_nat i') j in value_ok t (nth j row 0) v)
                                    (seq 0 (wa_dim x))
              end) (w_attrs m).
 Definition same_topo (m : wmesh) (r : mesh) : bool := topo_eqb (w_topo m) (m_topo r).
-Definition roundtrip_okb (o : wopts) (m : wmesh) (out : outcome) : bool :=
+(* the vertex properties the written file declares (independent of the writer model) *)
+Definition declared_props (w : wres) : list (sty * string) :=
+  match w with
+  | WFile file =>
+      match parse_header (pf_header file) with
+      | Ok h => match find_last_elem "vertex" (h_elems h) None with
+                | Some ve => flat_map (fun p => match p with PScalar t n => [(t, n)] | PList _ _ _ => [] end) (e_props ve)
+                | None => []
+                end
+      | Err _ => []
+      end
+  | _ => []
+  end.
+Definition roundtrip_okb (o : wopts) (m : wmesh) (w : wres) (out : outcome) : bool :=
+  let ps := declared_props w in
   match out with
   | OMesh r =>
       same_topo m r && Nat.eqb (List.length (m_idx r)) (List.length (w_idx m))       (* topology, primitive count *)
-      && forallb (fun '(i, i') => corner_ok o m r i i') (combine (w_idx m) (m_idx r))
+      && forallb (fun '(i, i') => corner_ok ps o m r i i') (combine (w_idx m) (m_idx r))
   | _ => false
   end.
 Definition outcomes_agree (a b : outcome) : bool :=
@@ -177,10 +211,10 @@ Definition header_okb (m : wmesh) (f : fmt) (w : wres) : bool :=
 
 Definition prop_ok (c : case) : bool :=
   match c with CW o m wa wl wb oa ol ob =>
-    roundtrip_okb o m oa && roundtrip_okb o m ol && roundtrip_okb o m ob
+    roundtrip_okb o m wa oa && roundtrip_okb o m wl ol && roundtrip_okb o m wb ob
     && outcomes_agree oa ol && outcomes_agree ol ob
     && header_okb m ASCII wa && header_okb m BinLE wl && header_okb m BinBE wb
   | CWbin o m wl wb ol ob =>
-    roundtrip_okb o m ol && roundtrip_okb o m ob && outcomes_agree ol ob
+    roundtrip_okb o m wl ol && roundtrip_okb o m wb ob && outcomes_agree ol ob
     && header_okb m BinLE wl && header_okb m BinBE wb
   end.
